@@ -29,6 +29,7 @@ CONSTANTS
     OptLen,      \* family A strings up to this length also get the stop-handling operations
     MaxCodons,   \* family B: 0..MaxCodons codons drawn from RichCodons, followed by a tail of 0, 1 or 2 bases
     PairCodons,  \* family P: pairs of family-B-like strings of exactly this many codons (collections of 2 sequences); 0 = none
+    LongLens,    \* family L: one generated base string of each of these lengths (around 2^8 / 2^16 codons and bases)
     SymLen       \* IUPAC strings (symbols, gap, missing) of length 0..SymLen for complement / rc
 
 VARIABLES inp
@@ -257,6 +258,12 @@ Flat(cs) == [i \in 1..(3 * Len(cs)) |-> cs[((i - 1) \div 3) + 1][((i - 1) % 3) +
 RichSeqs(n) == {Flat(cs) \o t : cs \in StrOver(RichCodons, n), t \in Tails}
 RichExact(n) == {Flat(cs) : cs \in [1..n -> RichCodons]}
 
+(* long family: a fixed, varied base string of any length (all arithmetic stays far below 2^31).  *)
+(* The expected proteins are computed by the same codon-by-codon Translate as for short strings.  *)
+GenBase(i) == LET a == i % 1013  b == i % 97  c == i % 31
+              IN Bases[(((a * a) \div 3 + (b * b) \div 5 + c * c + (i \div 7)) % 4) + 1]   \* all 64 codons occur within 1000 codons
+LongSeq(n) == [i \in 1..n |-> GenBase(i)]
+
 NoSeq == <<>>
 NoSet == {}
 In(kind, code, mt, s, s2, set) == [kind |-> kind, code |-> code, mt |-> mt, s |-> s, s2 |-> s2, set |-> set]
@@ -267,6 +274,7 @@ SymPool == {"A","C","G","T","U","R","Y","W","S","K","M","B","D","H","V","N","-",
 FamilyKeys ==
     {<<"codon", id, "dna">> : id \in TableCodes} \cup {<<"code", id, "dna">> : id \in TableCodes}
     \cup {<<"seqA", id, "dna">> : id \in SeqCodes} \cup {<<"seqB", id, "dna">> : id \in SeqCodes}
+    \cup {<<"seqL", id, "dna">> : id \in (IF LongLens # {} THEN SeqCodes ELSE {})}
     \cup {<<"pair", id, "dna">> : id \in (IF PairCodons > 0 THEN SeqCodes ELSE {})}
     \cup {<<"sym", 0, mt>> : mt \in MolTypes} \cup {<<"set", 0, mt>> : mt \in MolTypes}
     \cup {<<"str", 0, mt>> : mt \in MolTypes}
@@ -278,6 +286,7 @@ Family(k) ==
       [] kind = "code"  -> {In(kind, id, mt, NoSeq, NoSeq, NoSet)}
       [] kind = "seqA"  -> {In(kind, id, mt, s, NoSeq, NoSet) : s \in StrOver(BaseSet, MaxLen)}
       [] kind = "seqB"  -> {In(kind, id, mt, s, NoSeq, NoSet) : s \in RichSeqs(MaxCodons)}
+      [] kind = "seqL"  -> {In(kind, id, mt, LongSeq(n), NoSeq, NoSet) : n \in LongLens}
       [] kind = "pair"  -> {In(kind, id, mt, s, t, NoSet) : s \in RichExact(PairCodons), t \in RichExact(PairCodons)}
       [] kind = "sym"   -> {In(kind, 0, mt, <<x>>, NoSeq, NoSet) : x \in SymPool}
       [] kind = "set"   -> {In(kind, 0, mt, NoSeq, NoSeq, S) : S \in (SUBSET {"A","C","G","T","U"}) \ {{}}}
@@ -290,8 +299,9 @@ Valid(i) ==
     /\ i.kind \in {"sym", "str"} => \A k \in 1..Len(i.s) : i.s[k] \in AllSyms(i.mt)
     /\ i.kind = "set" => i.set \subseteq MtBases(i.mt)
 
-IsSeq == inp.kind \in {"seqA", "seqB"}
-WithOptions == inp.kind = "seqB" \/ (inp.kind = "seqA" /\ Len(inp.s) <= OptLen)
+IsLong == inp.kind = "seqL"
+IsSeq == inp.kind \in {"seqA", "seqB"} \/ (IsLong /\ Len(inp.s) <= 4000)   \* the laws are not re-checked on the longest strings
+WithOptions == inp.kind = "seqB" \/ (IsLong /\ Len(inp.s) <= 4000) \/ (inp.kind = "seqA" /\ Len(inp.s) <= OptLen)
 
 
 -----------------------------------------------------------------------------
@@ -316,7 +326,7 @@ SynonymsA == SynonymsT /\ Log("Synonyms", <<>>,
                   table |-> Table[inp.code]])
 
 (* gc.translate(seq, start, rc) for the six frames; gc.sixframes(seq); seq.rc() *)
-FramesT == IsSeq /\ Same
+FramesT == (IsSeq \/ IsLong) /\ Same
 FramesA == FramesT /\ Log("Frames", <<>>,
                  [six |-> SixFrames(inp.code, inp.s),
                   rc  |-> Rc(inp.s),
@@ -404,12 +414,12 @@ Next == \/ ChooseBucket
         \/ ProtSymA
 
 TypeOK ==
-    /\ inp.kind \in {"start", "bucket", "codon", "code", "seqA", "seqB", "pair", "sym", "set", "str", "psym"}
+    /\ inp.kind \in {"start", "bucket", "codon", "code", "seqA", "seqB", "seqL", "pair", "sym", "set", "str", "psym"}
     /\ inp.code \in AllCodes \cup {0}
     /\ inp.mt \in MolTypes \cup {"protein"}
     /\ \A i \in 1..Len(inp.s) : inp.s[i] \in SymPool \cup ProtSyms
     /\ inp.set \subseteq SymPool
-    /\ inp.kind \in {"seqA", "seqB", "pair", "codon"} =>
+    /\ inp.kind \in {"seqA", "seqB", "seqL", "pair", "codon"} =>
           /\ \A i \in 1..Len(inp.s) : inp.s[i] \in BaseSet
           /\ \A i \in 1..Len(inp.s2) : inp.s2[i] \in BaseSet
     /\ inp.kind \notin {"start", "bucket"} => Valid(inp)
@@ -468,6 +478,11 @@ AnticodonFrameLaw ==
                 t == SubSeq(inp.s, k + 1, k + 3 * n)
                 anti == [j \in 1..n |-> AA(inp.code, Rc(CodonAt(t, 0, j)))]
             IN Rev(anti) = Translate(inp.code, Rc(inp.s), (Len(inp.s) - k) % 3)
+
+(* one amino acid per complete codon, whatever the length *)
+LongLaw ==
+    IsLong => \A k \in 0..2 : /\ Len(Translate(inp.code, inp.s, k)) = (Len(inp.s) - k) \div 3
+                               /\ Len(Translate(inp.code, Rc(inp.s), k)) = (Len(inp.s) - k) \div 3
 
 (* the three stop rules fit together *)
 StopLaws ==
